@@ -36,6 +36,7 @@ void simrt_irq_handler(void (*handler)(int depth), int max_depth);
 /* plan n interrupts: the i-th fires gaps[i] eligible scheduling points after the (i-1)-th */
 void simrt_irq_plan(uint32_t n, uint32_t max_gap);
 void simrt_irq_set_gap(uint32_t i, uint32_t gap);	/* override one planned gap */
+void simrt_irq_densify(uint32_t max_gap);		/* remaining planned interrupts arrive densely */
 void simrt_irq_mask(bool masked);
 uint32_t simrt_irq_pending(void);		/* planned interrupts not fired yet             */
 int simrt_irq_depth(void);
@@ -54,6 +55,10 @@ typedef struct {
 	uintptr_t addr;
 	uint8_t ctx, depth, kind, mo;	/* kind: 0 load 1 store 2 rmw 3 cas-ok 4 cas-fail 5 fence */
 } simrt_alog_t;
+void simrt_mark_rmw(void);			/* start looking for the calling context's next RMW */
+uintptr_t simrt_first_rmw(void);		/* its address (0 = none yet); stops looking        */
+void simrt_watch_addr(uintptr_t addr);		/* count RMW operations on this address ...      */
+uint32_t simrt_watch_count(int ctx, int depth);	/* ... per context and interrupt depth            */
 uint32_t simrt_alog_len(void);
 const simrt_alog_t *simrt_alog(uint32_t i);
 
